@@ -123,6 +123,28 @@ def unpackLocs : List Lbl → List (Int × Int × Int) → Option (List Loc)
   | .M n :: ls, ds => if n ≤ ds.length then (unpackLocs ls (ds.drop n)).map (Loc.multi (ds.take n) :: ·) else none
   | _ :: _, [] => none
 
+/-! ## child order -/
+
+/-- `ArmiObject.__lt__`: compare `tuple(reversed(spatialLocator.getCompleteIndices()))`, i.e. (k, j, i)
+lexicographically; a CoordinateLocation reports complete indices (0, 0, 0). (Components override `__lt__` with their
+bounding-circle order; objects without locator / multi-index locators cannot be compared — parameters.) -/
+def locKey : Loc → Int × Int × Int
+  | .index i j k => (k, j, i)
+  | _ => (0, 0, 0)
+
+def lexLt (a b : Int × Int × Int) : Bool :=
+  decide (a.1 < b.1) || (decide (a.1 = b.1) && (decide (a.2.1 < b.2.1) || (decide (a.2.1 = b.2.1) && decide (a.2.2 < b.2.2))))
+
+def armiLt (a b : Label) : Bool := lexLt (locKey a.loc) (locKey b.loc)
+
+/-- stable insertion sort of positions by key: the order `sorted(children)` puts the children in -/
+def insIdx (keys : List (Int × Int × Int)) (x : Nat) : List Nat → List Nat
+  | [] => [x]
+  | y :: r => if lexLt (keys.getD y (0, 0, 0)) (keys.getD x (0, 0, 0)) then y :: insIdx keys x r else x :: y :: r
+
+def sortIdx (keys : List (Int × Int × Int)) : List Nat :=
+  (List.range keys.length).foldr (insIdx keys) []
+
 /-- `Layout.computeAncestors(serialNum, numChildren, depth=1)`: the parent's serial number of every row -/
 def ancestorsGo : List (Nat × Nat) → List (Nat × Nat) → List (Option Nat)
   | [], _ => []
